@@ -38,8 +38,9 @@ for d in sorted(glob.glob('/verif/seeded/*/'), key=lambda p:(p.split('/')[-2].sp
     rows.append('| %s | %s | %s | %s |'%(name, first[:200].replace('|','/'), last, hist.replace('|','/')))
 tbl='| change | what it is (author\'s notes, abridged) | last sweep on /repo (quick check of that property) | history |\n|---|---|---|---|\n'+'\n'.join(rows)+'\n'
 a=s.index('| change | what it is')
-b=s.index('**8.2 Reverse-applying')
-s=s[:a]+tbl+'\n\n'+s[b:]
+END='<!-- SEEDED_TABLE_END -->'
+b=s.index(END) if END in s else s.index('**8.2 Reverse-applying')
+s=s[:a]+tbl+'\n'+(END+'\n\n' if END not in s else '')+s[b:]
 # ---- section 9
 rows=['| id | tier | evaluations | distinct non-trivial | batches | wall s |','|---|---|---|---|---|---|']
 for f in sorted(glob.glob('/verif/evidence/C*.json')):
